@@ -68,6 +68,10 @@ func makeModularUnsorted(r *rand.Rand, m *openfgav1.AuthorizationModel) {
 }
 
 func checkPurity(run *core.Run, m *openfgav1.AuthorizationModel) {
+	run.Guard(&core.Case{Kind: "model", Model: modelJSON(m)}, func() { checkPurity1(run, m) })
+}
+
+func checkPurity1(run *core.Run, m *openfgav1.AuthorizationModel) {
 	c := &core.Case{Kind: "model", Model: modelJSON(m)}
 	snap := snapModel(m)
 	step := func(name string, f func()) {
